@@ -478,6 +478,9 @@ class Residues():
         Adds a new residues to the list of residues.
         """
         self.all_residues.append(resi)
+        if not resi.residue_class:
+            # A residue without a class can not be addressed by class (like SADI_CCF3)
+            return
         # Collect dict with class: numbers. SHELXL is not case sensitive and restraints look a class up in
         # upper case (SADI_ccf3 -> 'CCF3'), so the class is filed in upper case as well:
         residue_class = resi.residue_class.upper()
@@ -527,7 +530,7 @@ class RESI(Command):
         Allowed residue numbers is now from -999 to 9999 (2017/1)
         """
         alpha = re.compile('[a-zA-Z]')
-        for x in resi:
+        for x in resi[1:]:  # without the keyword itself: 'RESI 5' has no class (and not the class 'RESI')
             if alpha.search(x):
                 if ':' in x:
                     # contains ":" thus must be a chain-id+number
